@@ -183,6 +183,15 @@ func (tr *fnTrans) applyContractSig(c *Contract, key string, args []Term, sig *t
 			for i, h := range tr.c.Hints[site] {
 				henv := tr.env()
 				henv.oldHeap = map[string]string{}
+				// names of locals visible at this point (dominating definitions, address-taken cells, phis of this block)
+				if tr.cur != nil {
+					le := tr.loopEnv(&loopInfo{header: tr.cur, inclSelf: true}, func(p *ssa.Phi) Term { return tr.vals[p] }, henv.heap, tr.alloc)
+					for n, v := range le.vars {
+						if _, isParam := henv.vars[n]; !isParam {
+							henv.vars[n] = v
+						}
+					}
+				}
 				t, err := tr.spec(h.E, henv)
 				if err != nil {
 					tr.errorf("%s: hint %s: %v", tr.key, h.Src, err)
